@@ -1098,6 +1098,9 @@ class FuncAnalysis:
                     return IMM
                 if f.id in ("list", "sorted") and src.kind == "nd":
                     return AV("list", E, dp, ud, None, src.why or "list(ndarray) holds row views")
+                if f.id == "tuple" and len(argv) == 1 and src.kind == "nd":
+                    # rows of an array (or its scalars): as a subscript this is advanced (or full scalar) indexing
+                    return AV("tuple", E, dp, ud, "arrays", src.why or "tuple(ndarray) holds row views")
                 kind = "tuple" if f.id == "tuple" else "list"
                 return AV(kind, E, dp, ud, None, src.why)
             if f.id in npapi.BUILTIN_IMM:
